@@ -253,6 +253,9 @@ class Interp:
         elif isinstance(tgt, ast.Attribute):
             obj = self.eval(tgt.value)
             o = ctx.deref(obj)
+            sh = getattr(self.c, "setattr_hook", None)
+            if sh is not None and sh(ctx, self, obj, tgt.attr, v):
+                return
             if isinstance(o, VObj):
                 if tgt.attr not in o.ty.fields and tgt.attr not in o.fields:
                     self.unsupported(tgt, "new attribute")
@@ -718,6 +721,8 @@ class Interp:
                 return self.ctx.alloc(ty.empty())
             return self.ctx.alloc(empty_list(ty))
         items = [self.ctx.deref(self.eval(x)) for x in e.elts]
+        if getattr(self.c, "list_literals_as_tuples", False):
+            return VTuple(items)
         oty = getattr(self.c, "opaque_list_type", None)
         if oty is not None and all(isinstance(x, VPy) for x in items):
             return self.ctx.alloc(VList(oty, z3.IntVal(len(items)),
@@ -1117,6 +1122,13 @@ class Interp:
             self.unsupported(e, "yield without contract hook")
         hook(self.ctx, self, v)
         return NONE
+
+    def ex_YieldFrom(self, e):
+        v = self.eval(e.value)
+        hook = getattr(self.c, "on_yield_from", None)
+        if hook is None:
+            self.unsupported(e, "yield from without contract hook")
+        return hook(self.ctx, self, v)
 
     def ex_SetComp(self, e):
         return self.comprehension(e, "set")
@@ -1586,6 +1598,40 @@ class VRange(V):
         it.run_cut_loop(s, k, spec, guard_fn, prologue, epilogue, lambda: None)
 
 
+class VEnumerate(V):
+    """enumerate(<list>)"""
+
+    def __init__(self, L):
+        self.L = L
+
+    def for_loop(self, it, s, k, spec, ex):
+        L = self.L
+        ctx = it.ctx
+        ex["$i"] = VInt(0)
+        ex["$L"] = L
+
+        def guard_fn():
+            i = ex["$i"].t
+            ctx.assume(z3.And(i >= 0, i <= L.n))
+            return i < L.n
+
+        def prologue():
+            i = ex["$i"].t
+            it.assign(s.target, VTuple([VInt(i), it.wrap_elem(L.ty.elem, z3.Select(L.a, i))]))
+
+        def epilogue():
+            ex["$i"] = VInt(z3.simplify(ex["$i"].t + 1))
+
+        it.run_cut_loop(s, k, spec, guard_fn, prologue, epilogue, lambda: None)
+
+
+def _b_enumerate(ctx, it, args, kw):
+    v = ctx.deref(args[0])
+    if isinstance(v, VList):
+        return VEnumerate(v)
+    raise Unsupported("enumerate(%r)" % (v,))
+
+
 def _b_range(ctx, it, args, kw):
     vals = [ctx.deref(a) for a in args]
     for v in vals:
@@ -1598,4 +1644,4 @@ def _b_range(ctx, it, args, kw):
     raise Unsupported("range with step")
 
 
-BUILTINS = {"range": _b_range, "len": _b_len, "set": _b_set, "list": _b_list, "str": _b_str}
+BUILTINS = {"enumerate": _b_enumerate, "range": _b_range, "len": _b_len, "set": _b_set, "list": _b_list, "str": _b_str}
